@@ -1,9 +1,10 @@
 /- The table of all driver operations.  Each group adds its own list here. -/
 import Strengths.Driver.Units
+import Strengths.Driver.Grid
 
 namespace Strengths.Driver
 
 def allOps : List (String × Handler) :=
-  unitsOps
+  unitsOps ++ gridOps
 
 end Strengths.Driver
